@@ -793,6 +793,10 @@ def time_and_missing(repo, rep):
 
 
 def run(repo, rep, tier):
+    rep.rule("R-C11-24", "(shared with C12) the readers' converters map the stored density linearly and unconditionally: no value mask (exact zeros would come back as NaN), "
+                         "no conversion step guarded by metadata")
+    from .round7b import converters_unconditional_linear
+    converters_unconditional_linear(repo, rep, "R-C11-24")
     from .round7b import hygiene
     hygiene(repo, rep, "C11", ('wavespectra.output.', 'wavespectra.core.swan', 'wavespectra.specdataset', 'wavespectra.input.swan', 'wavespectra.input.netcdf', 'wavespectra.input.octopus', 'wavespectra.input.json'), falsy=True)
     rep.rule("R-C11-23", "(shared with C18) no writer reads freq / dir / dd / a statistic through the copies SpecDataset made of the efth accessor's attributes at "
